@@ -11,6 +11,7 @@ import (
 	"fmt"
 	"io"
 	"log"
+	"os"
 	"sync"
 
 	"go4.org/jsonconfig"
@@ -156,11 +157,14 @@ func run(r *ev.Run) {
 	jobs = append(jobs, historyJobs(r)...)
 	runJobs(24, jobs)
 
+	if os.Getenv("VERIF_ONLY") != "" {
+		return // replay of one case: coverage requirements do not apply
+	}
 	r.Require("n", "n1", "n2", "n3", "n4")
 	r.Require("quorum", "m<n", "m==n")
 	r.Require("min_writes_config", "explicit", "default")
 	r.Require("read_backends", "same", "distinct")
-	if r.Only("w/") {
+	{
 		r.Require("modes_delivered", "error", "error-after-effect", "misreport", "gate")
 		r.Require("modes_assigned", "ok", "error", "error-after-effect", "misreport", "gate")
 		r.Require("schedules", "free", "free-early", "free-late", "perm")
@@ -168,11 +172,11 @@ func run(r *ev.Run) {
 		r.Require("outcomes", "ack", "error", "ack-before-all-replicas-done", "error-after-all-replicas-done")
 		r.Require("assignment_class", "all-ok", "quorum-reachable-despite-faults", "quorum-needs-slow-replica", "quorum-impossible")
 	}
-	if r.Only("r/") {
+	{
 		r.Require("placements", "on-none", "on-one-read-replica", "on-several-read-replicas", "on-all-read-replicas", "only-on-non-read-replica", "on-read-and-non-read-replica")
 		r.Require("fetch_faults", "no-fault", "earlier-replica-fails-later-holds", "all-holders-fail", "some-holder-fails-other-serves")
 	}
-	if r.Only("h/") {
+	{
 		r.Require("history", "receive", "fetch", "stat", "enumerate", "remove", "re-receive", "audit")
 	}
 }
